@@ -456,6 +456,7 @@ def run(tier, seed):
                 variants.append((rs, labels))
         for rs, labels in variants:
             cases.append((w, rs, data, labels))
+    cases += merged_family(seed, scale(tier, 60))
     # ---- encode with the implementation, resolve on all three sides
     reqs, meta = [], []
     for ci, (w, rs, data, labels) in enumerate(cases):
@@ -562,6 +563,73 @@ def run(tier, seed):
                       "schemaless": [exp, experr], "tags": list(labels) + ["container"]},
                      "container reader and schemaless reader resolve differently", kind="oracle")
     return run.finish()
+
+
+def merged_family(seed, n):
+    """two different writer record types that resolve against ONE reader record type (same unqualified name in two
+    namespaces, or a reader alias), both occurring in one datum / one file, in either order: field matching, skipping
+    and default filling depend on the (writer record, reader record) pair, not on the reader record alone"""
+    import random
+    out = []
+    FT = [("int", lambda r: r.randint(-5, 5)), ("string", lambda r: r.choice(["", "a", "xyz"])), ("long", lambda r: r.randint(-2 ** 40, 2 ** 40)),
+          ("boolean", lambda r: r.random() < 0.5), ("double", lambda r: r.choice([0.5, -2.0, 1e10])), ("bytes", lambda r: bytes([r.randint(0, 255)]))]
+    for i in range(n):
+        r = random.Random(seed * 8191 + i)
+        names = ["x", "y", "z", "w", "v"]
+        types = {nm: r.choice(FT) for nm in names}
+
+        def rec(full, fnames):
+            ns, _, base = full.rpartition(".")
+            d = {"type": "record", "name": base, "fields": [{"name": f, "type": types[f][0]} for f in fnames]}
+            if ns:
+                d["namespace"] = ns
+            return d
+        f1 = r.sample(names, r.randint(1, 4))
+        f2 = r.sample(names, r.randint(1, 4))
+        style = r.choice(["two-namespaces", "alias"])
+        n1, n2 = ("a.Point", "b.Point") if style == "two-namespaces" else ("a.Point", "a.Dot")
+        w1, w2 = rec(n1, f1), rec(n2, f2)
+        rf = r.sample(names, r.randint(1, 5))
+        rfields = []
+        for f in rf:
+            fd = {"name": f, "type": types[f][0]}
+            if r.random() < 0.8:
+                v = types[f][1](r)
+                fd["default"] = v.decode("iso-8859-1") if isinstance(v, bytes) else v
+            rfields.append(fd)
+        rrec = {"type": "record", "name": "Point", "namespace": "a", "fields": rfields}
+        if style == "alias":
+            rrec["aliases"] = ["a.Dot"]
+        shape = r.choice(["fields", "array-of-union", "map-then-field"])
+        order = r.random() < 0.5
+        if shape == "fields":
+            wa, wb = (w1, w2) if order else (w2, w1)
+            w = {"type": "record", "name": "Top", "fields": [{"name": "p", "type": wa}, {"name": "q", "type": wb}]}
+            rs = {"type": "record", "name": "Top", "fields": [{"name": "p", "type": rrec}, {"name": "q", "type": "a.Point"}]}
+            mk = lambda: {"p": {f["name"]: types[f["name"]][1](r) for f in wa["fields"]}, "q": {f["name"]: types[f["name"]][1](r) for f in wb["fields"]}}
+        elif shape == "array-of-union":
+            w = {"type": "array", "items": [w1, w2]}
+            rs = {"type": "array", "items": [rrec]}
+            def mk():
+                xs = []
+                for _ in range(r.randint(2, 5)):
+                    ww = r.choice([w1, w2])
+                    full = (ww.get("namespace", "") + "." + ww["name"]).lstrip(".")
+                    xs.append((full, {f["name"]: types[f["name"]][1](r) for f in ww["fields"]}))
+                return xs
+        else:
+            w = {"type": "record", "name": "Top", "fields": [{"name": "m", "type": {"type": "map", "values": w1}}, {"name": "q", "type": w2}]}
+            rs = {"type": "record", "name": "Top", "fields": [{"name": "m", "type": {"type": "map", "values": rrec}}, {"name": "q", "type": "a.Point"}]}
+            mk = lambda: {"m": {k: {f["name"]: types[f["name"]][1](r) for f in w1["fields"]} for k in ["k1", "k2"][: r.randint(0, 2)]},
+                          "q": {f["name"]: types[f["name"]][1](r) for f in w2["fields"]}}
+        try:
+            parse_schema(copy.deepcopy(w))
+            parse_schema(copy.deepcopy(rs))
+            data = [mk() for _ in range(2)]
+        except Exception:
+            continue
+        out.append((w, rs, data, ["merged-record:" + style, "shape:" + shape]))
+    return out
 
 
 def _enc(w, v):
